@@ -45,7 +45,12 @@ def main(argv):
     if tier not in ("quick", "thorough"):
         tier = "quick"
     seed = int(os.environ.get("VERIF_SEED", "0") or 0)
-    return core.run_check(props[argv[0]](), tier, seed)
+    cls = props[argv[0]]
+    if getattr(cls, "custom_main", None):
+        # a property whose flow is not correspondence-stream shaped (C20: the model is
+        # regenerated from the source) drives itself under the same interface
+        return cls.custom_main(tier, seed)
+    return core.run_check(cls(), tier, seed)
 
 
 if __name__ == "__main__":
